@@ -831,7 +831,7 @@ def do_directions(part, start, end, counter):
         # e2.text = '{}={}'.format(unit, tempo.bpm)
         # result.append((tempo.start.t, None, e0))
         e3 = etree.Element(
-            "sound", tempo="{}".format(int(to_quarter_tempo(unit, tempo.bpm)))
+            "sound", tempo="{:g}".format(float(to_quarter_tempo(unit, tempo.bpm)))
         )
         result.append((tempo.start.t, None, e3))
 
